@@ -1054,6 +1054,24 @@ def _run_join(case, mon):
 # ------------------------------------------------------------------------------------------
 # free-fiber cases
 # ------------------------------------------------------------------------------------------
+def _check_all_ranks(mon, f, est):
+    """A free fibertree's own `getShape()` (all ranks) must contain every stored coordinate, level by level."""
+    key = "Fiber.getShape[all-ranks]"
+    shapes = _call(mon, key, f.getShape)
+    depth = max(lvl for lvl, _ in _walk(f)) + 1
+    if not mon.check(isinstance(shapes, list) and len(shapes) >= depth, f"{key}:fewer-levels-than-the-tree",
+                     f"{key} answers {shapes!r} for a tree of depth {depth}"):
+        return
+    # integer levels only: tuple-coordinate levels are judged fiber by fiber in _check_containment
+    for lvl, fb in _walk(f):
+        ext = shapes[lvl]
+        if isinstance(ext, bool) or not isinstance(ext, int):
+            continue
+        bad = [c for c in fb.coords if isinstance(c, int) and not 0 <= c < ext]
+        mon.check(not bad, f"{key}:coord-outside-shape",
+                  f"{key} of a free fibertree answers {shapes!r} but level {lvl} stores coordinates {bad[:4]}")
+
+
 def _run_fiber(case, mon):
     d = case["default"]
     ctor = case["ctor"]
@@ -1067,6 +1085,7 @@ def _run_fiber(case, mon):
         else:
             f = gen.fiber_from_spec(case["spec"], d, shape=case["shape"])
         _check_containment(mon, key, f, None, True, estimated=est)
+        _check_all_ranks(mon, f, est)
         if ctor == "fromUncompressed" and f.coords:
             for lvl, fb in _walk(f):
                 got = fb.getShape(all_ranks=False)
@@ -1081,16 +1100,20 @@ def _run_fiber(case, mon):
                 d0 = p.get("depth", 0)
                 _check_containment(mon, f"Fiber.{name}", r, None, True, estimated=est,
                                    roles={d0: "upper", d0 + 1: "partition"})
+                _check_all_ranks(mon, r, est)
             elif name == "flattenRanks":
                 r = _call(mon, f"Fiber.flattenRanks[{p['style']}]", f.flattenRanks, style=p["style"])
                 _check_containment(mon, f"Fiber.flattenRanks[{p['style']}]", r, None, True, estimated=est)
+                _check_all_ranks(mon, r, est)
             elif name == "flatten-unflatten":
                 r = _call(mon, "Fiber.flattenRanks[tuple]", f.flattenRanks)
                 r = _call(mon, "Fiber.unflattenRanks", r.unflattenRanks)
                 _check_containment(mon, "Fiber.unflattenRanks", r, None, True, estimated=est)
+                _check_all_ranks(mon, r, est)
             elif name == "swapRanks":
                 r = _call(mon, "Fiber.swapRanks", f.swapRanks)
                 _check_containment(mon, "Fiber.swapRanks", r, None, True, estimated=est)
+                _check_all_ranks(mon, r, est)
     except _Raised:
         return
     if f.coords:
